@@ -42,6 +42,23 @@ def run(ctx):
     if rejected:
         rows = vlib.read_ndjson(traces)
         bc.report_rejections(ctx, "C02", rows, rejected, lambda row: scens[row["item"] - 1])
+    # a store that fails in the middle of writing the message's file (directory mailboxes; the process's file size limit is
+    # lowered for the call, so these sequences run one session at a time in a process of their own)
+    ptraces, pscen = ctx.path("traces-fsp.ndjson"), ctx.path("scen-fsp.ndjson")
+    p2 = vlib.run_harness(ctx, binary, ["b2f-c02", "--fspartial", "--out", ptraces, "--scenarios", pscen, "--tmp", ctx.path("mbp", "x")[:-2]], timeout=1200)
+    if p2.returncode != 0:
+        raise vlib.Undecided("b2f-c02 --fspartial failed: rc=%d %s" % (p2.returncode, p2.stderr[-3000:]))
+    st2 = json.loads(p2.stdout.strip().splitlines()[-1])
+    prows = vlib.read_ndjson(ptraces)
+    hit = sum(1 for r in prows if any(e["op"] == "Store" and e.get("err") for e in r["ev"]))
+    if st2["traces"] == 0 or hit == 0:
+        raise vlib.Undecided("no sequence with a store failing in mid-file was produced (%d, %d)" % (st2["traces"], hit))
+    pacc, prej, _ = vlib.validate_traces(ctx, bc.SPECDIR, "B2FPropsTrace", "B2FPropsTrace.cfg", ptraces, st2["traces"], name="fsp")
+    if prej:
+        pscens = vlib.read_ndjson(pscen)
+        bc.report_rejections(ctx, "C02", prows, prej, lambda row: pscens[row["item"] - 1])
+    acc += pacc
+    st["store_fails_in_mid_file"] = {"sequences": st2["traces"], "with_failed_store": hit, "accepted": pacc}
     vlib.write_evidence(ctx, "fault_enumeration", {
         "traces_validated_against_impl": acc,
         "evaluations": st["sessions"],
